@@ -1,0 +1,20 @@
+// SPDX-FileCopyrightText: 2022-present Intel Corporation
+//
+// SPDX-License-Identifier: Apache-2.0
+
+//go:build verif
+
+// Contracts for the deductive verifier in /verif (govc). Comment-only: this file contains no code
+// and is excluded from every build that does not set the "verif" tag.
+
+package tree
+
+// frames only (the behaviour of the v3 copies is covered by the bounded C18 checks)
+//@ func BuildTree(values, jsonRFC7951) (doc, err)
+//@   trusted
+//@   modifies nothing
+//@   ensures errWF(err)
+//@ func PrunePathValues(paths, leaveTopDeletedPaths) (result)
+//@   trusted
+//@   modifies nothing
+//@   fresh result
